@@ -422,15 +422,19 @@ Definition classify_hit (b : N * wtask * props * inbound) : N :=
   else if nonempty (i_target e) then 6
   else 1.
 
+Definition hits_of (bs : list (N * wtask * props * inbound)) (d : outbound) :=
+  filter (fun b : N * wtask * props * inbound =>
+            let '(_, w, _, e) := b in target_hits (o_target d) (w_path w) e) bs.
+
 Definition check_out (bs : list (N * wtask * props * inbound)) (pr : props) (d : outbound) : N :=
   match assoc (o_name d) pr with
-  | None => 2
+  | None => if negb (is_explicit (o_target d)) && negb (nonempty (hits_of bs d)) then 15 else 2
   | Some (addr, meth, tr) =>
     if negb (str_eqb meth m_connect) then 2
     else if is_explicit (o_target d) then
       (if str_eqb addr (o_target d) && str_eqb tr (o_tr d) then 0 else 3)
     else
-      match filter (fun b => let '(_, w, _, e) := b in target_hits (o_target d) (w_path w) e) bs with
+      match hits_of bs d with
       | [] => 4
       | h :: r => if existsb (good_hit addr tr) (h :: r) then 0 else classify_hit h
       end
